@@ -1,5 +1,6 @@
 import Flodym.System
 import Flodym.Table
+import FlodymGen.IOSites
 /-!
 # Tier 4 — export (`export/data_writer.py`, `export/helper.py`), Sankey links (`export/sankey.py`)
 and the line decomposition of the array plotters (`export/array_plotter.py`)
@@ -60,16 +61,18 @@ def flowFiles (m : MFA) : List String := m.sys.flows.map fun f => toValidFileNam
 /-- the files `export_mfa_stocks_to_csv` writes, with what each holds -/
 def stockFiles (m : MFA) (withInAndOut : Bool) : List (String × FArr FV) :=
   m.sys.stocks.flatMap fun s =>
-    [(toValidFileName s.name ++ "_stock.csv", s.stock)] ++
-    (if withInAndOut then [(toValidFileName s.name ++ "_inflow.csv", s.inflow),
-                           (toValidFileName s.name ++ "_outflow.csv", s.outflow)] else [])
+    -- quantity names as the source spells them (`Gen.stockCsvAttributes`)
+    let q : Nat → String := fun i => Gen.stockCsvAttributes.getD i "?"
+    [(toValidFileName s.name ++ "_" ++ q 0 ++ ".csv", s.stock)] ++
+    (if withInAndOut then [(toValidFileName s.name ++ "_" ++ q 1 ++ ".csv", s.inflow),
+                           (toValidFileName s.name ++ "_" ++ q 2 ++ ".csv", s.outflow)] else [])
 
 /-! ## Sankey links -/
 
 structure SankeyCfg where
   slice : List (String × Item) := []                 -- dimension letter ↦ item
   split : List (String × String × Nat) := []         -- flow name ↦ (dimension, number of colours given)
-  excludeProcesses : List String := [Gen.sysenvName]
+  excludeProcesses : List String := Gen.sankeyDefaultExclude
   excludeFlows : List String := []
 
 structure Link where
